@@ -35,7 +35,68 @@ def run(prog, an, rep):
     rep.run_rules(prog, an, [dedupe_pending_only, job_equality,
                              worker_shape, no_process_exit, worker_loop,
                              accepted_means_enqueued, ignored_events,
-                             lockset_note])
+                             reset_callback, lockset_note])
+
+
+def reset_callback(prog, an, rep):
+    """BertE.process resets the work directory before every job; the
+    removal reports what it cannot delete to a callback.  A callback that
+    cannot take the three arguments shutil.rmtree passes turns the first
+    leftover file into a TypeError at the top of every later job: events
+    are accepted and none is evaluated."""
+    R = 'C13.ARG.reset-callback'
+    n = 0
+    for f in prog.all_funcs():
+        if not f.module.name.startswith('bert_e.lib.git'):
+            continue
+        for call in prog.calls_in(f):
+            if (dotted(call.func) or '').rpartition('.')[2] != 'rmtree':
+                continue
+            for k in call.keywords:
+                if k.arg not in ('onerror', 'onexc'):
+                    continue
+                n += 1
+                rep.evaluated()
+                cb = k.value
+                node, bound = None, False
+                if isinstance(cb, ast.Lambda):
+                    node = cb
+                elif isinstance(cb, ast.Name):
+                    for x in ast.walk(f.node):
+                        if isinstance(x, ast.FunctionDef) and \
+                                x.name == cb.id and x is not f.node:
+                            node = x
+                    if node is None:
+                        g = prog.funcs.get(f.module.name + '.' + cb.id)
+                        node = g.node if g is not None else None
+                elif isinstance(cb, ast.Attribute) and \
+                        isinstance(cb.value, ast.Name) and \
+                        cb.value.id in ('self', 'cls') and f.cls is not None:
+                    g = prog.lookup_method(f.cls, cb.attr)
+                    if g is not None:
+                        node = g.node
+                        decos = {src(d) for d in node.decorator_list}
+                        bound = 'staticmethod' not in decos
+                if node is None:
+                    rep.violation(R, f.qname + ': removal callback',
+                                  f.where(call), 'the callback %s of rmtree '
+                                  'cannot be resolved' % src(cb))
+                    continue
+                a = node.args
+                pos = len(a.posonlyargs) + len(a.args) - (1 if bound else 0)
+                required = pos - len(a.defaults)
+                ok = pos >= 0 and required <= 3 and \
+                    (pos >= 3 or a.vararg is not None) and not any(
+                        d is None for d in a.kw_defaults)
+                rep.check(ok, R, f.qname + ': the removal callback takes '
+                          '(function, path, excinfo)', f.where(call),
+                          'rmtree calls %s with three arguments; it takes '
+                          '%d%s: the first file that cannot be removed '
+                          'raises TypeError in every later job' % (
+                              src(cb), max(pos, 0),
+                              ' (after the instance it is bound to)'
+                              if bound else ''))
+    rep.floor('C13 work-directory removal callbacks', n, 1)
 
 
 def dedupe_pending_only(prog, an, rep):
